@@ -257,7 +257,7 @@ class Hist:
                 h["pos"] = [self.value_for(a, bad)]
         elif kind == "transform":
             if t == ("spec", 1) and rng.random() < 0.6:
-                h["kwfn"] = [(1, self.fn_for(INT, bad, raising=rng.random() < fail_rate))]
+                h["kwfn"] = self.k1_kwfn(bad, fail_rate)
                 if rng.random() < 0.3:
                     h["fn"] = ("id",)
             else:
@@ -267,15 +267,35 @@ class Hist:
         return self.add(("helper", x, (kind, aid), h), ("inst", cid), fail_at)
 
     def k1_kw(self, bad=False):
+        """keywords for a nested K1 value; when `bad`, exactly one keyword (at a random
+        position, so that correct ones may precede it) carries an ill-typed value"""
         rng = self.rng
         kw = []
         if rng.random() < 0.8:
-            kw.append((1, self.int_val(bad)))
+            kw.append((1, self.int_val(False)))
         if rng.random() < 0.4 or not kw:
             kw.append((2, S(rng.choice([7, 8]))))
-        if bad and rng.random() < 0.3:
-            kw.append((3, S(7)))
+        if rng.random() < 0.25:
+            kw.append((3, rng.choice([NONE, V(4)])))
+        rng.shuffle(kw)
+        if bad:
+            i = rng.randrange(len(kw))
+            aid = kw[i][0]
+            kw[i] = (aid, self.int_val(True) if aid == 1 else V(1) if aid == 2 else S(7))
         return kw
+
+    def k1_kwfn(self, bad=False, fail_rate=0.0):
+        """attribute transforms for a nested K1 value: one or two, the ill-typed / raising
+        one at a random position"""
+        rng = self.rng
+        aids = [1] if rng.random() < 0.55 else rng.sample([1, 3], 2)
+        tys = {1: INT, 3: ("opt", INT)}
+        j = rng.randrange(len(aids))
+        out = []
+        for i, aid in enumerate(aids):
+            hit = i == j
+            out.append((aid, self.fn_for(tys[aid], bad and hit, raising=hit and rng.random() < fail_rate)))
+        return out
 
     def item_helper(self, x, cid, bad_rate, inplace_rate, fail_rate=0.0):
         rng = self.rng
@@ -342,7 +362,7 @@ class Hist:
             else:
                 h["pos"] = [V(rng.choice([0, 1, 2, 3]))]
             if ity != INT and rng.random() < 0.5:
-                h["kwfn"] = [(1, self.fn_for(INT, bad, raising=rng.random() < fail_rate))]
+                h["kwfn"] = self.k1_kwfn(bad, fail_rate)
                 h["fn"] = ("id",)
             else:
                 h["fn"] = self.fn_for(ity, bad, raising=rng.random() < fail_rate)
